@@ -274,13 +274,27 @@ type result struct {
 	counts   map[string]int
 }
 
-func call(f func() error) (err error, blocked bool) {
+// hang watchdog of blocking library calls: 8 s, and 1.5 s once three calls of this run have hung
+// (a library that hangs hangs in many cases; the run must still end within a minute or two)
+var hangs atomic.Int32
+
+func wdNow() time.Duration {
+	if hangs.Load() >= 3 {
+		return 1500 * time.Millisecond
+	}
+	return 8 * time.Second
+}
+
+// call runs a blocking library call in its own goroutine and gives up wdNow() after the time the
+// call's own context allows it (budget); a call given up on stays behind as a leaked goroutine
+func call(budget time.Duration, f func() error) (err error, blocked bool) {
 	ch := make(chan error, 1)
 	go func() { ch <- f() }()
 	select {
 	case err = <-ch:
 		return err, false
-	case <-time.After(wd):
+	case <-time.After(budget + wdNow()):
+		hangs.Add(1)
 		return nil, true
 	}
 }
@@ -329,7 +343,7 @@ func runCase(c *caseIn, r *rng.R) (res result) {
 		return res
 	}
 	var conn *iscp.Conn
-	err, blocked := call(func() error {
+	err, blocked := call(wd, func() error {
 		var err error
 		ping, pto := time.Hour, time.Hour
 		if c.Outage {
@@ -372,7 +386,7 @@ func runCase(c *caseIn, r *rng.R) (res result) {
 	qos := []message.QoS{message.QoSUnreliable, message.QoSReliable, message.QoSPartial}[c.QoS%3]
 	var down *iscp.Downstream
 	var resumed atomic.Int32
-	err, blocked = call(func() error {
+	err, blocked = call(wd, func() error {
 		ctx, cancel := context.WithTimeout(context.Background(), wd)
 		defer cancel()
 		var err error
@@ -402,8 +416,13 @@ func runCase(c *caseIn, r *rng.R) (res result) {
 	prevIDs := map[uint32]int{}
 	prevUps := map[uint32]int{}
 	stable := true
+	stateHung := false
 	snapshot := func() (newUps, newIDs [][2]int) {
-		st := down.State()
+		var st *iscp.DownstreamState
+		if _, blocked := call(0, func() error { st = down.State(); return nil }); blocked {
+			stateHung = true
+			return nil, nil
+		}
 		curIDs := map[uint32]int{}
 		for a, d := range st.DataIDAliases {
 			curIDs[a] = nm.didIdx(d)
@@ -432,8 +451,10 @@ func runCase(c *caseIn, r *rng.R) (res result) {
 		prevUps, prevIDs = curUps, curIDs
 		return
 	}
-	first, _ := snapshot() // pre-registered aliases are the initial table
-	_ = first
+	snapshot() // pre-registered aliases are the initial table
+	if stateHung {
+		return bad("Downstream.State did not return right after OpenDownstream (hang)")
+	}
 
 	type ackT struct {
 		sess     int
@@ -581,7 +602,7 @@ func runCase(c *caseIn, r *rng.R) (res result) {
 				timeout = 4 * time.Millisecond
 			}
 			var ck *iscp.DownstreamChunk
-			err, blocked := call(func() error {
+			err, blocked := call(wd, func() error {
 				ctx, cancel := context.WithTimeout(context.Background(), timeout)
 				defer cancel()
 				var err error
@@ -589,10 +610,13 @@ func runCase(c *caseIn, r *rng.R) (res result) {
 				return err
 			})
 			if blocked {
-				return "ReadDataPoints did not return within the watchdog"
+				return fmt.Sprintf("ReadDataPoints did not return after its context ended (hang) at event #%d", len(evT))
 			}
 			ec := errClass(err)
 			nu, ni := snapshot()
+			if stateHung {
+				return fmt.Sprintf("Downstream.State did not return after ReadDataPoints had returned (error class %d) at event #%d (hang: the stream lock is never released)", ec, len(evT))
+			}
 			pick := closed && ec != 4
 			evT = append(evT, "Read "+coqfmt.Bool(pick))
 			consumed := ec == 0 || ec == 1 || ec == 2
@@ -855,7 +879,7 @@ func runCase(c *caseIn, r *rng.R) (res result) {
 				timeout = 4 * time.Millisecond
 			}
 			var md *iscp.DownstreamMetadata
-			err, blocked := call(func() error {
+			err, blocked := call(wd, func() error {
 				ctx, cancel := context.WithTimeout(context.Background(), timeout)
 				defer cancel()
 				var err error
@@ -863,7 +887,7 @@ func runCase(c *caseIn, r *rng.R) (res result) {
 				return err
 			})
 			if blocked {
-				return bad("ReadMetadata did not return within the watchdog")
+				return bad(fmt.Sprintf("ReadMetadata did not return after its context ended (hang) at event #%d", len(evT)))
 			}
 			ec := errClass(err)
 			pick := closed && ec != 4
@@ -912,13 +936,13 @@ func runCase(c *caseIn, r *rng.R) (res result) {
 			sess = b.Current()
 			res.counts["cut"]++
 		case "close":
-			err, blocked := call(func() error {
+			err, blocked := call(wd, func() error {
 				ctx, cancel := context.WithTimeout(context.Background(), wd)
 				defer cancel()
 				return down.Close(ctx)
 			})
 			if blocked {
-				return bad("Downstream.Close did not return within the watchdog (connection up, broker answering)")
+				return bad(fmt.Sprintf("Downstream.Close did not return after its context ended (hang) at event #%d (connection up, broker answering)", len(evT)))
 			}
 			if err != nil {
 				return bad("Downstream.Close returned an error on a live connection: " + err.Error())
@@ -940,7 +964,10 @@ func runCase(c *caseIn, r *rng.R) (res result) {
 		time.Sleep(2 * time.Millisecond) // anything still written after the close request would show up now
 	}
 	acks, nbefore, ncloses, metaacks := collect()
-	st := down.State()
+	var st *iscp.DownstreamState
+	if _, blocked := call(0, func() error { st = down.State(); return nil }); blocked {
+		return bad(fmt.Sprintf("Downstream.State did not return at the end of the history, after event #%d (hang)", len(evT)))
+	}
 	// every flush attempted while the link was down consumed an ack id: the gap in the ack ids around
 	// a cut is the number of failed sends (model events AckTick false) at that cut
 	for j := len(cuts) - 1; j >= 0; j-- {
@@ -1492,4 +1519,5 @@ func main() {
 		fmt.Fprintln(os.Stderr, err)
 		os.Exit(2)
 	}
+	os.Exit(0) // goroutines of library calls that hung are left behind; they must not keep the process alive
 }
